@@ -138,11 +138,6 @@ def vf : P String := do
                         ++ (if ioStatus == 1 then " loaded" else "") ++ (if H == 0 then " trivial" else "") }
   return vd.render
 
-/-- multiset inclusion of whole entries: `out` can be obtained from `inp` by deleting entries -/
-def subMultiset : List VEntry → List VEntry → Bool
-  | [], _ => true
-  | e :: out, inp => if inp.contains e then subMultiset out (inp.erase e) else false
-
 def xd : P String := do
   let S ← P.nat; let inp ← vlistP; P.bar; let out ← vlistP; P.eof
   let mo := extractDominated S inp
@@ -337,6 +332,7 @@ def perseus : P String := do
   let v ← vfP; P.eof
   let mv := perseusRun m (bs.map bfun) v0 h
   let exact := match v with | [] => false | v0 :: rest => consistentFrom eqQ m v0 rest
+  let exact := exact && isPow2 m.O   -- R/|O| must be exact too: the stored vectors can be exact while the per-observation values were rounded
   let rtOf := fun (bl : List Rat) => exact && dyadicList bl
   let cond := condRun (fun prev c => condPerseusStep m rtOf prev bs c) mv
   return wholeRun "PERSEUS" m bs v mv cond
@@ -402,6 +398,7 @@ def ls : P String := do
   let fuel := lists.length + 2
   let mlevel := lsStep m 0 verts1 verts2 lsPopMax fuel prev
   let exact := levelB eqQ m prev level
+  let exact := exact && isPow2 m.O   -- R/|O| must be exact too: the stored vectors can be exact while the per-observation values were rounded
   let rtOf := fun (bl : List Rat) => exact && dyadicList bl
   let c0 : Cond := (List.range m.S).foldl (fun c s => condAll m prev c exact (fun i => if i = s then 1 else 0)) {}
   let cond := condLsLoop m prev rtOf verts2 fuel (verts1 []) st0 c0
@@ -418,6 +415,7 @@ def pbvi : P String := do
   let v ← vfP; P.eof
   let mv := pbviRun m (bs.map bfun) _h
   let exact := match v with | [] => false | v0 :: rest => consistentFrom eqQ m v0 rest
+  let exact := exact && isPow2 m.O   -- R/|O| must be exact too: the stored vectors can be exact while the per-observation values were rounded
   let rtOf := fun (bl : List Rat) => exact && dyadicList bl
   let cond := condRun (fun prev c => condPbviStep m rtOf prev bs c) mv
   return wholeRun "PBVI" m bs v mv cond
@@ -438,6 +436,7 @@ def pbviw : P String := do
   let vs := v.drop k
   let mvs := if expl then (pbviRunFrom m (bs.map bfun) v0 h).drop k else vs
   let exact := match vs with | [] => false | w0 :: rest => consistentFrom eqQ m w0 rest
+  let exact := exact && isPow2 m.O   -- R/|O| must be exact too: the stored vectors can be exact while the per-observation values were rounded
   let rtOf := fun (bl : List Rat) => exact && dyadicList bl
   let cond := if expl then condRun (fun prev c => condPbviStep m rtOf prev bs c) mvs else {}
   -- beliefs for the execution clause: the explicit list, or the corners
@@ -499,6 +498,7 @@ def wt : P String := do
   let vd := vd.failIf (!(calls.all (fun cs => cs.all (fun c => c.uLen != 0 || c.ans.isSome)))) "WitnessLP no_witness_with_empty_set"
   if !vd.fails.isEmpty then return vd.render
   let exact := levelB eqQ m prev level
+  let exact := exact && isPow2 m.O   -- R/|O| must be exact too: the stored vectors can be exact while the per-observation values were rounded
   let witOf := fun (a : Nat) (U : VList) (v : List Rat) =>
     match (calls.getD a []).find? (fun c => c.uLen == U.length && closeVec c.v v) with
     | some c => c.ans.map bfun
